@@ -359,6 +359,9 @@ func genRPC(c *Chooser, o ScenOpts) *RPCPlan {
 		}
 	}
 	rp.TrailerStyle = Pick(c, "announce", "prefix")
+	if rp.TrailerStyle == "announce" && c.Prob(0.4) {
+		rp.AnnounceCase = Pick(c, "lower", "upper", "given", "lines")
+	}
 	rp.ExplicitHdr = c.Bool()
 	if o.Segment {
 		cp.Deliveries = genSegSizes(c)
